@@ -4,6 +4,11 @@ From Coq Require Import List NArith.
 From SudachiVerif Require Generated.TrieBits.
 From SudachiVerif Require Import Model.Trie Model.WordIdTable Model.LexSet.
 From SudachiVerif Require Import Proofs.TrieProofs Proofs.WordIdTableProofs Proofs.LexSetProofs.
+From SudachiVerif Require Import Model.IndexBuild Proofs.IndexBuildProofs.
+From SudachiVerif Require Model.DictCands.
+From SudachiVerif Require Model.Buffer Model.Lattice Model.BuildLattice Proofs.PipelineProofs Proofs.BuildLatticeProofs Proofs.BuildOptimal Proofs.LookupLattice.
+From Coq Require ZArith String.
+From SudachiVerif Require Generated.IndexFacts.
 Import ListNotations.
 Open Scope N_scope.
 
@@ -135,3 +140,119 @@ Theorem C04_lookup_once_of_certificate : forall L rows fuel,
   forall dic text off l, dic < 16 -> bytes text -> lex_lookup L dic text off = Some l -> NoDup l.
 Proof. exact (fun L rows fuel => lex_lookup_nodup_of_cert L rows fuel C04_fact_layout). Qed.
 Print Assumptions C04_lookup_once_of_certificate.
+
+(* ---- the index the builder hands to the table writer and the trie builder (IndexBuilder, write_index) ---- *)
+(* shapes re-read from dic/build/index.rs, build/mod.rs write_index, build/lexicon.rs read_bytes: add = entry().or_default().push,
+   ids = positions among ALL rows, offset taken before a group is written, (key, offset) pairs to yada, every csv record is a
+   row (no header line, no comment character, no trimming) *)
+Fact C04_fact_index_shapes : index_shapes_ok = true.
+Proof. vm_compute. reflexivity. Qed.
+
+(* for EVERY lexicon (any order, scattered homographs, non-indexed rows in between): the (surface, ids) table is exactly
+   "all rows with left_id >= 0 grouped by surface, ids = their row numbers in row order", one group per distinct indexed surface,
+   groups in order of first occurrence *)
+Theorem C04_index_groups_spec : forall rows,
+  NoDup (map fst (index_groups rows)) /\
+  (forall k ids, In (k, ids) (index_groups rows) <-> (ids = rows_with k rows /\ ids <> [])) /\
+  map fst (index_groups rows) = first_occurrences (indexed_surfaces rows).
+Proof. exact (index_groups_spec C04_fact_index_shapes C04_fact_should_index). Qed.
+Print Assumptions C04_index_groups_spec.
+
+(* ... and the word-id table written from it: every (key, offset) pair handed to the trie builder points at a group that reads
+   back as exactly the row numbers of the indexed rows with that surface; every indexed surface is a key; keys are distinct *)
+Theorem C04_index_table_spec : forall rows tbl kos,
+  N.of_nat (length rows) <= 4294967296 -> index_table rows = Some (tbl, kos) ->
+  NoDup (map fst kos) /\
+  (forall k o, In (k, o) kos -> rows_with k rows <> [] /\ entries tbl o = Some (rows_with k rows)) /\
+  (forall r, In r rows -> indexed r = true -> exists o, In (fst r, o) kos).
+Proof. exact (fun rows tbl kos => index_table_spec C04_fact_index_shapes C04_fact_should_index rows tbl kos C04_fact_group_limit). Qed.
+Print Assumptions C04_index_table_spec.
+
+(* closing the loop through the model: if the model of IndexBuilder run on the CSV reproduces the word-id table section byte for
+   byte and the verified enumerator reads exactly the model's (key, offset) pairs out of the trie section (both checked on
+   every compiled dictionary of the correspondence run), then for EVERY byte text and offset lookup = naive CSV scan.  What is
+   validated per dictionary instead of proved is the yada builder alone. *)
+Theorem C04_lookup_exact_of_index_model : forall L rows fuel,
+  N.of_nat (length rows) <= 268435456 -> index_cert L rows fuel = true ->
+  forall dic text off, N.land dic Generated.LexFacts.DIC_MASK = dic -> bytes text ->
+  exists l, lex_lookup L dic text off = Some l /\
+            forall w e, In (w, e) l <-> In (w, e) (naive_lex dic rows text off).
+Proof.
+  exact (fun L rows fuel Hlen => lex_lookup_exact_of_index_cert C04_fact_index_shapes C04_fact_should_index L rows fuel
+                                   C04_fact_layout C04_fact_group_limit Hlen).
+Qed.
+Print Assumptions C04_lookup_exact_of_index_model.
+
+(* ---- lookup results as lattice nodes (ties C04 to C02's build_optimal) ---- *)
+Close Scope N_scope.
+Open Scope nat_scope.
+(* For EVERY array, text and offset an entry found at byte offset `off` ends strictly after `off` and inside the text (keys are
+   never empty: the iterator yields only after consuming a byte).  If moreover the array is certified and all its keys are
+   whole UTF-8 strings (`chars_ok`: every character = a lead byte followed by exactly width-1 continuation bytes), the
+   text is a byte string that is valid UTF-8 in the same sense and `off` is a character boundary, then `end` is a character
+   boundary of the text. *)
+Theorem C04_lookup_candidates_wf : forall a text off v e,
+  In (v, e) (traverse a text off) ->
+  (off < N.to_nat e <= length text) /\ (forall fuel ks, keys_of a fuel = Some ks -> (forall k v', In (k, v') ks -> chars_ok k) ->
+                   bytes text -> chars_ok text -> Buffer.is_boundary text off = true ->
+                   Buffer.is_boundary text (N.to_nat e) = true).
+Proof.
+  exact (fun a text off v e Hin =>
+           conj (LookupLattice.traverse_range a text off v e Hin)
+                (fun fuel ks Hk Hutf Hb Ht Hoff => LookupLattice.traverse_end_boundary a fuel ks text off v e Hk Hutf Hb Ht Hoff Hin)).
+Qed.
+Print Assumptions C04_lookup_candidates_wf.
+
+(* the per-dictionary certificate gives the key hypothesis: enumerated keys = CSV surfaces, which are Rust strs *)
+Theorem C04_cert_keys_utf8 : forall L rows fuel,
+  cert_lex L rows fuel = true -> (forall r, In r rows -> chars_ok (fst r)) -> LookupLattice.lex_keys_utf8 L.
+Proof. exact LookupLattice.cert_keys_utf8. Qed.
+Print Assumptions C04_cert_keys_utf8.
+
+(* build_lattice makes its dictionary nodes the way Model/DictCands.v says (shape re-read from stateful_tokenizer.rs and
+   buffer/mod.rs; behaviour compared on every text of the correspondence run through Lattice::verif_nodes) *)
+Fact C04_fact_lattice_lookup_shape : lattice_shape_ok = true.
+Proof. vm_compute. reflexivity. Qed.
+
+(* the offset tables of InputBuffer are the ones C08 proves about *)
+Fact C04_fact_buffer_cfg : Buffer.cfg_ok Buffer.the_cfg = true.
+Proof. vm_compute. reflexivity. Qed.
+
+(* the nodes build_lattice makes from lookup results at character ch_off (char begin = ch_off, byte begin = mod_c2b[ch_off],
+   char end = ch_idx(end) = mod_b2c[end], can_bow filter, any word parameters) are well formed: begin = ch_off < end <= number
+   of characters -- for certified lexicons, every valid text and every character position *)
+Theorem C04_lookup_lattice_nodes_wf : forall lexs params bow t ch_off m,
+  (forall L, In L lexs -> LookupLattice.lex_keys_utf8 L) -> bytes t -> chars_ok t -> (ch_off < PipelineProofs.nchars t) ->
+  In m (DictCands.dict_cands Buffer.the_cfg lexs params bow t ch_off) ->
+  BuildLatticeProofs.node_wf (PipelineProofs.nchars t) ch_off m.
+Proof. exact (LookupLattice.dict_cands_wf Buffer.the_cfg C04_fact_buffer_cfg). Qed.
+Print Assumptions C04_lookup_lattice_nodes_wf.
+
+(* the dictionary half of `offered_wf`, the hypothesis of C02_build_optimal: with candidates = dictionary nodes ++ OOV nodes *)
+Theorem C04_offered_wf_from_lookup : forall lexs params bow t oov fallback,
+  (forall L, In L lexs -> LookupLattice.lex_keys_utf8 L) -> bytes t -> chars_ok t ->
+  (forall p m, In m (oov p) -> BuildLatticeProofs.node_wf (PipelineProofs.nchars t) p m) ->
+  (forall p f, fallback p = Some f -> BuildLatticeProofs.node_wf (PipelineProofs.nchars t) p f) ->
+  forall p m, (p < PipelineProofs.nchars t) ->
+    In m (BuildOptimal.offered (fun q => DictCands.dict_cands Buffer.the_cfg lexs params bow t q ++ oov q) fallback p) ->
+    BuildLatticeProofs.node_wf (PipelineProofs.nchars t) p m.
+Proof. exact (LookupLattice.offered_wf_from_lookup Buffer.the_cfg C04_fact_buffer_cfg). Qed.
+Print Assumptions C04_offered_wf_from_lookup.
+
+(* C02's optimality theorem for the tokenizer's own loop with the dictionary half of its hypothesis discharged: candidates at
+   character p (p < number of characters) = nodes made from lookup results of certified lexicons ++ any well-formed OOV nodes *)
+Theorem C04_build_optimal_with_dictionary : forall conn lexs params bow t oov fallback L r i c,
+  (forall L0, In L0 lexs -> LookupLattice.lex_keys_utf8 L0) -> bytes t -> chars_ok t ->
+  (forall p m, p < PipelineProofs.nchars t -> In m (oov p) -> BuildLatticeProofs.node_wf (PipelineProofs.nchars t) p m) ->
+  (forall p f, p < PipelineProofs.nchars t -> fallback p = Some f -> BuildLatticeProofs.node_wf (PipelineProofs.nchars t) p f) ->
+  0 < PipelineProofs.nchars t ->
+  BuildLattice.build conn (DictCands.lattice_cands Buffer.the_cfg lexs params bow t oov)
+                     (DictCands.lattice_fallback t fallback) (PipelineProofs.nchars t) = Some (L, (r, i, c)) ->
+  (exists p, BuildOptimal.chainP (BuildOptimal.Offered (DictCands.lattice_cands Buffer.the_cfg lexs params bow t oov)
+                                                       (DictCands.lattice_fallback t fallback)) 0 (PipelineProofs.nchars t) p
+             /\ Lattice.path_cost conn p = c) /\
+  (forall p, BuildOptimal.chainP (BuildOptimal.Offered (DictCands.lattice_cands Buffer.the_cfg lexs params bow t oov)
+                                                       (DictCands.lattice_fallback t fallback)) 0 (PipelineProofs.nchars t) p ->
+             BinInt.Z.le c (Lattice.path_cost conn p)).
+Proof. exact (LookupLattice.build_optimal_with_dictionary Buffer.the_cfg C04_fact_buffer_cfg). Qed.
+Print Assumptions C04_build_optimal_with_dictionary.
